@@ -1,6 +1,7 @@
 import Scion.Model.Net
 import Scion.Proofs.Net
 import Scion.Proofs.NetSteps
+import Scion.Proofs.NetEdge
 /-!
 # C02 — Paths built from beacons are accepted hop by hop and reach the destination
 
@@ -21,5 +22,83 @@ def C02_full : Prop :=
     WFNet net → AllUp net → Joinable mac net edges src dst → pathOf edges = some c →
     Unexpired now c →
     ∃ cf, send mac net now src dst c = .delivered dst (pathIfaces edges) cf
+
+/-- **Stage 1 (single segment, up, core or down, whole or from/to a shortcut AS)** — proved for
+    networks with one border router per AS (hence `_partial`; sibling hand-over is covered by the
+    tie to the real routers only).  By induction over the hops of the segment: the control-plane
+    invariant `Chain` (every registered segment carries, hop by hop, the MAC of its AS under the
+    accumulator β_j — `registered_chain`) meets the data-plane invariant "the SegID in the packet
+    on arrival at hop j is the one that hop was created with" (C22).  The conclusion includes
+    stage 4 for these paths: the interfaces crossed are exactly those of the path metadata
+    (`trace_eq_metadata`) and the packet is handed to the internal network of `dst`. -/
+theorem single_segment_accepted_partial (mac : MacFn) (net : Net) (now : Nat)
+    (hWF : WFNet net) (hUp : AllUp net) (hSR : SingleRouter net)
+    (e : Edge) (src dst : Nat) (c : Cursor) (hpeer : e.peer = none)
+    (hJ : Joinable mac net [e] src dst) (hp : pathOf [e] = some c) (hexp : Unexpired now c) :
+    ∃ cf, send mac net now src dst c = .delivered dst (pathIfaces [e]) cf := by
+  cases hd : e.down with
+  | true =>
+    obtain ⟨cf, h, _⟩ := single_down_full mac net now src dst hWF hUp hSR e c hd hpeer hJ hp hexp
+    exact ⟨cf, h⟩
+  | false =>
+    obtain ⟨cf, h, _⟩ := single_up_full mac net now src dst hWF hUp hSR e c hd hpeer hJ hp hexp
+    exact ⟨cf, h⟩
+
+/-- stage 4 spelled out: whatever `send` returns for such a path, it is a delivery in `dst` whose
+    trace is the metadata's interface list -/
+theorem trace_eq_metadata_partial (mac : MacFn) (net : Net) (now : Nat)
+    (hWF : WFNet net) (hUp : AllUp net) (hSR : SingleRouter net)
+    (e : Edge) (src dst : Nat) (c : Cursor) (hpeer : e.peer = none)
+    (hJ : Joinable mac net [e] src dst) (hp : pathOf [e] = some c) (hexp : Unexpired now c)
+    (a : Nat) (tr : List (Nat × Nat)) (cf : Cursor)
+    (h : send mac net now src dst c = .delivered a tr cf) : a = dst ∧ tr = pathIfaces [e] := by
+  obtain ⟨cf', h'⟩ := single_segment_accepted_partial mac net now hWF hUp hSR e src dst c hpeer hJ hp hexp
+  rw [h'] at h
+  cases h
+  exact ⟨rfl, rfl⟩
+
+/-- the control-plane invariant the induction rests on (re-exported): every registered segment is
+    a chain of hop entries whose MACs were computed by the right AS under the right accumulator,
+    joined by existing links of the right kind, starting with ingress 0 and ending with egress 0 -/
+theorem registered_is_chain (mac : MacFn) (net : Net) (core : Bool) (s : PSeg)
+    (h : Registered mac net core s) :
+    Chain mac net core s.ts s.s0 s.entries ∧
+    (∃ first, s.entries.head? = some first ∧ first.hop.cIn = 0) ∧
+    (∃ last, s.entries.getLast? = some last ∧ last.hop.cEg = 0) ∧
+    2 ≤ s.entries.length := registered_chain mac net core s h
+
+/-- stages 2 (`xover_accepted`) and 3 (`peering_accepted`) — segment changes at a common AS,
+    child–child shortcuts, peering shortcuts — are stated by `C02_full` and covered by the tie to
+    the real routers (thousands of such paths per run, see the engine's shape histogram); their
+    proofs are not finished: the run lemmas `run_transits`, `down_tail_run`, `up_tail_run` are
+    already generic in the segments before/after the current one, what is missing is the
+    cross-over step between them. -/
+def xover_and_peering_open : Prop := C02_full
+
+/-! Non-vacuity: a two-AS network (core 1 with child 2), the beacon 1→2 with the identity-like MAC
+`fun _ inp => inp.length`; the down path is delivered by `send`. -/
+def exMac : MacFn := fun k inp => (k ++ inp).foldl (fun a b => (a * 31 + b.toNat) % 281474976710656) 7
+def exNet : Net := fun a =>
+  if a = 1 then ⟨[1], true, [⟨5, .child, true, 0, 2, 9⟩]⟩
+  else if a = 2 then ⟨[2], false, [⟨9, .parent, true, 0, 1, 5⟩]⟩
+  else ⟨[], false, []⟩
+def exSeg : PSeg :=
+  extend exMac exNet (extend exMac exNet ⟨77, 1000, []⟩ 1 63 0 5 []) 2 63 9 0 []
+
+def exDelivered : Bool :=
+  match pathOf [⟨exSeg, false, true, 0, none⟩] with
+  | some c =>
+    (match send exMac exNet 2000000 1 2 c with
+     | .delivered a tr _ => a == 2 && tr == [(1, 5), (2, 9)]
+     | _ => false)
+  | none => false
+
+example : exDelivered = true := by decide +kernel
+
+/-- … and the segment is `Registered` in the sense of the theorems (originated by AS 1 on its
+    child interface 5, terminated by AS 2) -/
+example : Registered exMac exNet false exSeg :=
+  Registered.terminate _ 2 9 63 []
+    (Beaconed.originate 1 77 1000 63 5 [] ⟨5, .child, true, 0, 2, 9⟩ (by decide) rfl (by decide))
 
 end Scion.C02
